@@ -11,6 +11,28 @@ from vmon import boot  # noqa: E402
 boot.init(scratch=False)
 from vmon.runner import load_prop  # noqa: E402
 
+LEVEL_TEXT = {
+    "C01": "Every update() of every generated composition runs under two independent monitors (trace: no pull at the announced time fails; model: an independent scheduling model and the recorder's own publication log find no lagging source at update entry). Held on the executions observed; counters of adapter kinds/orderings/topology classes must all be non-zero, else inconclusive.",
+    "C02": "Every update event is judged against a justification-chain search on an independent scheduling model, and every request reaching a source output over an unbuffered link is compared with the model-derived (delay-accumulated) time. Exploration of generated compositions, not a proof.",
+    "C03": "Recorded life-cycle events of every component are checked by a regular-expression monitor, adapter finalisation is counted, termination is decided as bounded progress in logical steps (update and connect-iteration caps), never by wall clock.",
+    "C04": "The outcome class of each generated cyclic (and acyclic) composition is predicted from its spec alone and compared with the exception class of the real connect()/run(); successful runs must also keep the C01/C02 monitors silent. In-between delay budgets are unconstrained but must end in success or exactly the circular-coupling error.",
+    "C05": "Differential monitor: one spec executed under all (<=4 components) or many listing/link-order permutations; outcome tuples must be identical. Held on the permutations executed.",
+    "C06": "The real iterative connect() is compared with a least-fixpoint model of the documented protocol (outcome, reported stuck set, connected-only-when-complete, progress exactly when something was exchanged, iteration cap) and offset compositions are checked for both initial publications and initial values.",
+    "C07": "An independent rule table over set/unset/conflicting metadata fields predicts accept/reject and the exchanged metadata; the real connect() and the resulting input/output infos are compared field by field, and one datum is sent over the link. Combinations the statement leaves open are counted as unconstrained.",
+    "C08": "Recorded push/pull histories on a real link are checked against a nearest-publication model, a hand-written dimensional unit table and the located-value encoding (misplaced elements or mask bits are visible).",
+    "C09": "Differential against an unlimited-history model on random interleavings, retained-length bound after every event, icontract class invariant on Output evaluated on every public call.",
+    "C10": "Differential (memory limit vs none) on real compositions plus an audit-hook ledger of files created and removed; covers every buffering slot kind, payload kind and prefix-boundary limit generated.",
+    "C11": "Exact (Fraction) evaluation of the interpolant definitions on the full publication history versus pulls behind the real adapters, including refused out-of-range requests and memory limits.",
+    "C12": "Exact piecewise integrals of the linear/step interpolant versus pulls behind the real Sum/Avg adapters; model-free two-partition conservation check on the real code; unit dimension/reduction checks.",
+    "C13": "Compositional delay model versus the time observed at the source's public get_data and the unique id of the delivered publication (slot level), plus the driver-assumption clause under the real scheduler (composition level).",
+    "C14": "Closed-form coordinate oracle versus the public grid properties. The thorough tier enumerates the whole bounded configuration product (exhaustive for that space); operation histories over several live grids for the 'whatever was read or set before' clause.",
+    "C15": "Located-value encoding over all ordered layout pairs (thorough: every pair, plain and masked): canonical round trip, transform with/without time axis, compatible_with both directions, real links.",
+    "C16": "Brute-force geometric oracle with unique located values (nearest), affine-field reproduction and hull membership (linear), poison differential for masked sources, on real links.",
+    "C17": "Hand-written dimensional table (not a per-pair pint query) versus finam's helpers and real links; the thorough tier sweeps all ordered pairs of the catalogue in many random query orders from cold and warm caches (exhaustive over the catalogue).",
+    "C18": "Numpy reference for compress/expand, fixed-mask prepare monitor, explicit acceptance table on Info.accepts and real exchanges, located masks across layouts.",
+    "C19": "Reference predicate over generated link topologies versus the exception class of connect(), recorder counts exchange events before the error, link-list multiset comparison after success.",
+    "C20": "One-value model for static slots with fetch counting, provider call-log monitor versus the scheduling model for pull-based components, arithmetic reference for WeightedSum.",
+}
 props = [json.loads(l) for l in open(os.path.join(boot.VERIF, "properties.jsonl"), encoding="utf-8")]
 checks, na = [], []
 for p in props:
@@ -29,7 +51,7 @@ for p in props:
             "engine": "vmon",
             "level_claimed": {
                 "category": prop.level,
-                "text": getattr(prop, "level_text", None)
+                "text": LEVEL_TEXT.get(pid)
                 or "Held on the generated executions only: the real finam code runs under monitors whose oracle is an independent executable model; "
                 "evidence lists how many distinct non-trivial cases and which monitor events were observed. No claim beyond the generated domain.",
                 "design_ref": f"DESIGN.md section 4, {pid}",
